@@ -40,6 +40,14 @@ Prof(q) == CASE q = 1 -> <<8, 4, 10>>          \* the defaults 2.0 / 1.0 / 1e-5
              [] q = 5 -> <<4, 2, 10>>
              [] q = 6 -> <<16, 6, 100000>>
              [] q = 7 -> <<8, 10, 10>>
+             \* fractional (dyadic, exactly representable) thresholds: a node / side holding exactly
+             \* floor(threshold) samples / weight must NOT be split (round 2: a truncated comparison was missed)
+             [] q = 8 -> <<10, 4, 10>>         \* min_weight_split 2.5
+             [] q = 9 -> <<13, 5, 125000>>     \* 3.25 / 1.25 / 0.125
+             [] q = 10 -> <<6, 6, 10>>         \* 1.5 / 1.5
+             [] q = 11 -> <<14, 3, 250000>>    \* 3.5 / 0.75 / 0.25
+             [] q = 12 -> <<9, 9, 10>>         \* 2.25 / 2.25 ("just above" 2)
+             [] q = 13 -> <<17, 4, 375000>>    \* 4.25 / 1.0 / 0.375 (= the Gini decrease of 1+3 -> 1 | 3)
              [] q = 0 -> <<8, 0, 10>>          \* no minimum leaf weight
 
 \* polynomial hash (stays below 2^31: h < 1000003, h * 131 + v < 2^28)
